@@ -8,12 +8,13 @@
 //!   fingerprint(key) : SHA1(0x99 len16 body) / SHA256(0x9B len32 body); key id = low / high 64 bits
 //! Families (N scales the text length only):
 //!   01 text digests with a digest-recording key (full digest handed to the signer / verifier is compared):
-//!      every text over {a,CR,LF} of <= N octets x every split into <= 3 chunks x {v4, v6}
+//!      every text over {a,CR,LF,VT} of < N (and <= 7) octets and over {a,CR,LF} of the other lengths <= N x every split into <= 3 chunks x {v4, v6}
 //!   02 neighbours: single-octet edits of every text: verify Ok iff canon equal (text sig), iff equal (binary sig)
 //!   03 in-memory normaliser (LiteralData::from_str) == canon
 //!   04 streaming MessageBuilder sign_text path <-> in-memory path, both directions
 //!   05 Utf8 literal acceptance iff text is canonical, for every chunking
 //!   06 texts padded with 'a' so that they touch the 512-octet window edges of the normalising reader
+//!   08 every octet value b in the texts b, a b, b LF, CR b, CR b LF, b CR LF b, whole and in every split
 //!   07 the same with real Ed25519Legacy (v4) / Ed25519 (v6) keys on the texts of <= 3 octets
 //!   10 tamper matrix (single bit flips in type / pk / hash / hashed area / salt), other key, issuer subpackets,
 //!      version alignment, critical unknown subpackets, issuer fingerprint version
@@ -45,7 +46,8 @@ use sha2::Digest;
 use std::io::Read;
 use std::sync::Mutex;
 
-const ALPHABET: [u8; 3] = [b'a', b'\r', b'\n'];
+/// the exhaustive part: all texts over ALPHABET of < N (and <= 7) octets and all texts over its first three letters of the remaining lengths <= N
+const ALPHABET: [u8; 4] = [b'a', b'\r', b'\n', 0x0b];
 const T0: u32 = 1_700_000_000;
 
 // ---------------------------------------------------------------- oracles
@@ -418,19 +420,24 @@ fn config_for(k: &impl KeyDetails, typ: SignatureType, hash: HashAlgorithm, salt
 
 // ---------------------------------------------------------------- text enumeration
 fn texts(n: usize) -> Vec<Vec<u8>> {
-    let mut out = vec![vec![]];
-    let mut layer: Vec<Vec<u8>> = vec![vec![]];
-    for _ in 0..n {
-        let mut next = Vec::with_capacity(layer.len() * 3);
-        for t in &layer {
-            for &c in &ALPHABET {
-                let mut u = t.clone();
-                u.push(c);
-                next.push(u);
+    fn layer(alpha: &[u8], len: usize) -> Vec<Vec<u8>> {
+        let mut l: Vec<Vec<u8>> = vec![vec![]];
+        for _ in 0..len {
+            let mut next = Vec::with_capacity(l.len() * alpha.len());
+            for t in &l {
+                for &c in alpha {
+                    let mut u = t.clone();
+                    u.push(c);
+                    next.push(u);
+                }
             }
+            l = next;
         }
-        out.extend(next.iter().cloned());
-        layer = next;
+        l
+    }
+    let mut out = vec![];
+    for len in 0..=n {
+        out.extend(layer(if len < n && len <= 7 { &ALPHABET } else { &ALPHABET[..3] }, len));
     }
     out
 }
@@ -522,6 +529,37 @@ fn read_and_verify(bytes: &[u8], key: &dyn VerifyingKey) -> Result<(Vec<u8>, Sig
     Ok((data, sig))
 }
 
+/// streaming signer (MessageBuilder sign_text, binary literal) and streaming message reader against the oracle digest,
+/// and crosswise with the one-shot / detached path
+fn stream_and_cross(dk: &DigestKey, text: &[u8], cuts: &[usize]) -> Result<(), String> {
+    let rng = ChaCha20Rng::seed_from_u64(4);
+    let mut b = MessageBuilder::from_reader("", Chunked::new(text, cuts));
+    b.sign_text();
+    e2s(b.partial_chunk_size(512), "C06 stream", "chunk size")?;
+    b.sign(dk as &dyn SigningKey, Password::empty(), HashAlgorithm::Sha256);
+    dk.take();
+    let bytes = e2s(b.to_vec(rng), "C06 stream", "building the signed message failed")?;
+    let d_sign = dk.take().ok_or("(C06 stream) signer not called")?;
+    let (data, sig) = read_and_verify(&bytes, dk).map_err(|e| format!("(C06 stream) own signed message: {e}"))?;
+    let d_ver = dk.take();
+    ensure!(data == text, "(C06 stream data) literal data changed: {}", show(&data));
+    let w = sig_wire(&sig)?;
+    let want = indep_digest(&w, &canon(text)).ok_or("hash")?;
+    ensure!(d_sign == want, "(C11/C14 stream sign) digest of the streaming signer {} differs from the RFC digest {} over canon(text)", hx(&d_sign[..4]), hx(&want[..4]));
+    ensure!(d_ver.as_deref() == Some(&want[..]), "(C11/C14 stream verify) digest of the message reader differs from the RFC digest");
+    // streaming-made signature verifies on the in-memory path
+    e2s(sig.verify(dk, &text[..]), "C14 stream->detached", "signature from the streaming path does not verify as detached signature")?;
+    // detached signature verifies inside a one-pass message
+    if cuts.is_empty() {
+        let det = sign_and_check(dk, SignatureType::Text, text, &[], 9)?;
+        let cfg = det.config().ok_or("config")?;
+        let m = ops_message(&det, dk, SignatureType::Text, cfg.hash_alg, cfg.pub_alg, false, text)?;
+        let (d2, _) = read_and_verify(&m, dk).map_err(|e| format!("(C14 detached->stream) detached text signature inside a one-pass message: {e}"))?;
+        ensure!(d2 == text, "(C06 stream data) data changed");
+    }
+    Ok(())
+}
+
 fn all_cuts(len: usize, max_chunks: usize) -> Vec<Vec<usize>> {
     let mut out = vec![vec![]];
     if max_chunks >= 2 {
@@ -609,31 +647,7 @@ fn text_families(t: &mut Tally, n: usize, k4: &SignedSecretKey, k6: &SignedSecre
             for (vi, dk) in [(4u8, &dk4), (6u8, &dk6)] {
                 let id = format!("04{vi:02x}{}{}", cuts_id(&cuts), th);
                 t.case(&id, &|| format!("v{vi} MessageBuilder sign_text over {} cut at {:?} <-> detached", show(text), cuts), || {
-                    let rng = ChaCha20Rng::seed_from_u64(4);
-                    let mut b = MessageBuilder::from_reader("", Chunked::new(text, &cuts));
-                    b.sign_text();
-                    e2s(b.partial_chunk_size(512), "C06 stream", "chunk size")?;
-                    b.sign(dk as &dyn SigningKey, Password::empty(), HashAlgorithm::Sha256);
-                    dk.take();
-                    let bytes = e2s(b.to_vec(rng), "C06 stream", "building the signed message failed")?;
-                    let d_sign = dk.take().ok_or("(C06 stream) signer not called")?;
-                    let (data, sig) = read_and_verify(&bytes, dk).map_err(|e| format!("(C06 stream) own signed message: {e}"))?;
-                    let d_ver = dk.take();
-                    ensure!(data == *text, "(C06 stream data) literal data changed: {}", show(&data));
-                    let w = sig_wire(&sig)?;
-                    let want = indep_digest(&w, &canon(text)).ok_or("hash")?;
-                    ensure!(d_sign == want, "(C11/C14 stream sign) digest of the streaming signer {} differs from the RFC digest {} over canon(text)", hx(&d_sign[..4]), hx(&want[..4]));
-                    ensure!(d_ver.as_deref() == Some(&want[..]), "(C11/C14 stream verify) digest of the message reader differs from the RFC digest");
-                    // streaming-made signature verifies on the in-memory path
-                    e2s(sig.verify(dk, &text[..]), "C14 stream->detached", "signature from the streaming path does not verify as detached signature")?;
-                    // detached signature verifies inside a one-pass message
-                    if cuts.is_empty() {
-                        let det = sign_and_check(dk, SignatureType::Text, text, &[], 9)?;
-                        let cfg = det.config().ok_or("config")?;
-                        let m = ops_message(&det, dk, SignatureType::Text, cfg.hash_alg, cfg.pub_alg, false, text)?;
-                        let (d2, _) = read_and_verify(&m, dk).map_err(|e| format!("(C14 detached->stream) detached text signature inside a one-pass message: {e}"))?;
-                        ensure!(d2 == *text, "(C06 stream data) data changed");
-                    }
+                    stream_and_cross(dk, text, &cuts)?;
                     dk.take();
                     Ok(true)
                 });
@@ -651,6 +665,36 @@ fn text_families(t: &mut Tally, n: usize, k4: &SignedSecretKey, k6: &SignedSecre
                     let id = format!("06{:04x}{}{}", pad, cuts_id(&cuts), th);
                     t.case(&id, &|| format!("v4 text signature over 'a' x {pad} ++ {} cut at {:?}", show(text), cuts), || {
                         sign_and_check(&dk4, SignatureType::Text, &long, &cuts, 6)?;
+                        Ok(true)
+                    });
+                }
+            }
+        }
+    }
+    // 08: every octet value next to line endings, one piece and every split (binary-safe APIs)
+    for b in 0..=255u8 {
+        let shapes: [Vec<u8>; 6] = [vec![b], vec![b'a', b], vec![b, b'\n'], vec![b'\r', b], vec![b'\r', b, b'\n'], vec![b, b'\r', b'\n', b]];
+        for (si, text) in shapes.iter().enumerate() {
+            for mask in 0u32..1 << (text.len() - 1) {
+                let cuts: Vec<usize> = (1..text.len()).filter(|i| mask & (1 << (i - 1)) != 0).collect();
+                for (vi, dk) in [(4u8, &dk4), (6u8, &dk6)] {
+                    let id = format!("08{vi:02x}{b:02x}{si:02x}{}", cuts_id(&cuts));
+                    t.case(&id, &|| format!("v{vi} text signatures over the octets {} delivered in pieces cut at {:?} (into_hasher, sign_text_data, MessageBuilder sign_text, Signature::verify, message reader)", show(text), cuts), || {
+                        let det = sign_and_check(dk, SignatureType::Text, text, &cuts, 8)?;
+                        dk.take();
+                        let rng = ChaCha20Rng::seed_from_u64(8);
+                        let ds = e2s(DetachedSignature::sign_text_data(rng, dk, &Password::empty(), HashAlgorithm::Sha256, Chunked::new(text, &cuts)), "C06 sign_text_data", "sign")?;
+                        let d = dk.take().ok_or("(C06) signer not called")?;
+                        let w = sig_wire(&ds.signature)?;
+                        let want = indep_digest(&w, &canon(text)).ok_or("hash")?;
+                        ensure!(d == want, "(C11/C14 sign_text_data) digest handed to the signer {} differs from the RFC digest {} over canon(text)={}", hx(&d[..4]), hx(&want[..4]), show(&canon(text)));
+                        e2s(ds.verify(dk, text), "C06/C14 sign_text_data", "does not verify on the one-shot path")?;
+                        stream_and_cross(dk, text, &cuts)?;
+                        // the one-shot signature inside a one-pass message (streaming verifier)
+                        let cfg = det.config().ok_or("config")?;
+                        let m = ops_message(&det, dk, SignatureType::Text, cfg.hash_alg, cfg.pub_alg, false, text)?;
+                        read_and_verify(&m, dk).map_err(|e| format!("(C14 detached->stream) text signature inside a one-pass message: {e}"))?;
+                        dk.take();
                         Ok(true)
                     });
                 }
